@@ -303,3 +303,20 @@ package handshake
 //@   trusted constructor of the uTLS client crypto setup; newUClientConnection's order clause is checked before this call, only its frame is used
 //@   ensures result != nil
 //@   modifies nothing
+
+// Which "no keys" answer a packet gets decides its fate: ErrKeysNotYetAvailable queues it for later, ErrKeysDropped
+// discards it. Keys of a level count as "not yet there" only while the Initial keys still exist; once those are gone a
+// missing opener means the keys were dropped (C13: a delayed or forged packet of a finished level is discarded, never
+// queued — queueing after the handshake panics).
+//@ func (h *cryptoSetup) GetInitialOpener
+//@   props C13
+//@   ensures [dropped-iff-absent] iff(result1 == nil, h.initialOpener != nil) && implies(result1 != nil, result1 == ErrKeysDropped)
+//@   modifies nothing
+//@ func (h *cryptoSetup) Get0RTTOpener
+//@   props C13
+//@   ensures [which-error] iff(result1 == nil, h.zeroRTTOpener != nil) && implies(result1 != nil, result1 == ite(h.initialOpener != nil, ErrKeysNotYetAvailable, ErrKeysDropped))
+//@   modifies nothing
+//@ func (h *cryptoSetup) GetHandshakeOpener
+//@   props C13
+//@   ensures [which-error] iff(result1 == nil, h.handshakeOpener != nil) && implies(result1 != nil, result1 == ite(h.initialOpener != nil, ErrKeysNotYetAvailable, ErrKeysDropped))
+//@   modifies nothing
